@@ -1000,7 +1000,9 @@ def oracle(case, impl):
                 exp = [s for s in exp if s["mol"].lower() == mm]
             if k != "-" and int(k) != 0:
                 exp = [s for s in exp if user_k_matches(s, int(k))]
-            if via == "ftexttmp" and (got is None or (not got and exp)):
+            k_filter_on_nondna = k != "-" and int(k) != 0 and any(s["mol"] != "DNA" for s in saved[d])
+            if via == "ftexttmp" and (got is None or (not got and exp)) and not k_filter_on_nondna:
+                # (with a ksize filter over non-DNA sketches an empty answer is known finding C09.1, classified below)
                 bad.append((idx, "C09:text-file-object-closed-before-read",
                             f"`{op}`: a text-mode file object passed directly (`load_signatures_from_json(open(path))`) is "
                             f"closed before it is read: {obs[:40]}"))
